@@ -250,6 +250,58 @@ def long_program(rng, t):
     return src, ["true", str(len(t.encode())), "true", "1", "false", "false"], (r1[0], r2[0], True, len(t))
 
 
+SPECIAL = ["row1\r\nrow2", "\r\n", "a\rb", "a\nb", "\n\r", "tab\there", "nul\0byte", "bell\x07!", 'quote"q', "back\\slash",
+           "dollar$x", "\r\n\r\n", "x\r", "\ny", "é\r\nü", " lead", "trail ", "\x0b\x0c", "a\r\n", "\r\nb", "{brace}", "#hash"]
+_ESC = {"\r": "\\r", "\n": "\\n", "\t": "\\t", "\0": "\\0", "\x07": "\\a", "\x0b": "\\v", "\x0c": "\\f", '"': '\\"', "\\": "\\\\", "$": "\\$"}
+
+
+def esc(t):
+    return '"' + "".join(_ESC.get(c, c) for c in t) + '"'
+
+
+def special_program(rng, t):
+    """texts with control characters, quotes, backslashes, CR LF pairs ... produced by several routes"""
+    k = rng.randint(0, len(t))
+    routes = [
+        ("literal", esc(t)),
+        ("concat@%d" % k, "(%s + %s)" % (esc(t[:k]), esc(t[k:]))),
+        ("utf8", "String.from_utf8([%s])" % ", ".join(str(c) for c in t.encode())),
+        ("cps", "String.from_code_points([%s])" % ", ".join(str(ord(c)) for c in t)),
+        ("interp@%d" % k, '(|| { var h = %s; return "${h}" + %s; })()' % (esc(t[:k]), esc(t[k:]))),
+        ("interp2@%d" % k, '(|| { var h = %s; var u = %s; return "${h}${u}"; })()' % (esc(t[:k]), esc(t[k:]))),
+        ("iter", '(|| { var r = ""; for c in %s { r = r + c; } return r; })()' % esc(t)),
+        ("slice", "(%s[1..%d])" % (esc("<" + t + ">"), len(t.encode()) + 1)),
+        ("from", "String.from(%s)" % esc(t)),
+    ]
+    if ";" not in t and t:
+        routes.append(("replace", "(%s.replace(\";\", %s))" % (esc(";" + t[1:]), esc(t[:1]))))
+    if "|" not in t:
+        routes.append(("split", '((%s + "|zz").split("|")[0])' % esc(t)))
+    (n1, e1), (n2, e2), (n3, e3) = rng.choice(routes), rng.choice(routes), rng.choice(routes)
+    src = "\n".join(["var a = %s;" % e1, "var b = %s;" % e2, "var c = %s;" % e3,
+                     "print(a == b); print(b == c); print(a.len());",
+                     "var m = {}; m.insert(a, 1); m.insert(b, 2); m.insert(c, 3); print(m.len()); print(m.get(a));",
+                     'print(m.has_key(a + "")); print(a.to_bytes() == c.to_bytes()); print((a, b) == (c, c));'])
+    return src, ["true", "true", str(len(t.encode())), "1", "3", "true", "true", "true"], ("special:" + n1, "special:" + n2, True, 0)
+
+
+NUMTEXT = [("42", "42"), ("3.5", "3.5"), ("7", "7"), ("true", "true"), ("false", "false"), ("nil", "nil"), ("1000000", "1000000"),
+           ("(40 + 2)", "42"), ("(7 / 2)", "3.5"), ("-3", "-3")]
+
+
+def numtext_program(rng, vt):
+    """the text of a non-string value produced by interpolation alone, interpolation with text, String.from, a literal"""
+    v, t = vt
+    routes = [("interp_alone", '(|| { var n = %s; return "${n}"; })()' % v), ("interp_lit", '"${%s}"' % v),
+              ("literal", '"%s"' % t), ("from", "String.from(%s)" % v), ("interp_plus", '("${%s}" + "")' % v),
+              ("interp_slice", '("x${%s}"[1..%d])' % (v, len(t) + 1)), ("concat", '("%s" + "%s")' % (t[:1], t[1:]))]
+    (n1, e1), (n2, e2) = rng.choice(routes), rng.choice(routes)
+    src = "\n".join(["var a = %s;" % e1, "var b = %s;" % e2, "print(a == b); print(a);",
+                     'var m = {"%s": "found"}; print(m.get(a)); print(m.has_key(b)); m.insert(a, 1); m.insert(b, 2); print(m.len());' % t,
+                     "print([a] == [b]); print(a.len());"])
+    return src, ["true", t, "found", "true", "1", "true", str(len(t))], ("num:" + n1, "num:" + n2, True, 0)
+
+
 def gen_program(rng):
     """a yarel program comparing strings produced by two routes; expected lines known by construction"""
     lines = []
@@ -365,6 +417,8 @@ def run(ctx):
     progs = [gen_program(rng) for _ in range(150 if quick else 2500)]
     progs += [collision_program(pr) for pr in COLLIDING] + [collision_program((b, a)) for a, b in COLLIDING]
     progs += [long_program(rng, t) for t in LONG for _ in range(2 if quick else 12)]
+    progs += [special_program(rng, t) for t in SPECIAL for _ in range(3 if quick else 20)]
+    progs += [numtext_program(rng, vt) for vt in NUMTEXT for _ in range(4 if quick else 25)]
     precs = yvlib.run_harness(binary, ["run - " + hx(p[0]) for p in progs])
     routes = set()
     for (src, expect, meta), r in zip(progs, precs):
